@@ -37,6 +37,8 @@ def cases_of(shard, tier):
     for mask, kinds, style, rev in _sweep.graph_space(tier, n):
         if not (lo <= mask < hi) or style != "int" or rev:
             continue
+        if entry == "mp" and "m" in kinds:
+            continue  # dict arguments + legacy fuse: judged under C09 (known finding fuse:*:dict-arg)
         reqs = [list(range(n))] + list(range(n))
         for fail in _sweep.failsets(n, mask, kinds, MAXF[tier], "VUBPW"):
             eks = {ek for _, ek in fail}
